@@ -10,6 +10,8 @@ git -C /repo worktree add -q --detach $S/repo HEAD || exit 2
 cp /repo/Cargo.lock $S/repo/ 2>/dev/null
 rsync -a --exclude .git --exclude work --exclude replays --exclude harness/target /verif/ $S/verif/   # cold harness build: copying a target dir that a concurrent ./check is writing gives spurious build failures
 mkdir -p $S/verif/work $S/verif/replays
+# a pristine copy of a finished harness build (made while nothing was building) keeps the two profiles warm
+[ -d /root/work/target_cache ] && rsync -a /root/work/target_cache/ $S/verif/harness/target/
 out=$(unshare -m bash -c "mount --bind $S/repo /repo && mount --bind $S/verif /verif && cd /verif && for p in ${P//,/ }; do ./check \$p $* 2>&1; done" | grep -E "tier=|VIOLATION|BROKEN" | cut -c1-300)
 mkdir -p /verif/work/evalmut; { echo "== $name ($P) $(date -u +%FT%TZ)"; echo "$out"; } >> /verif/work/evalmut/log.txt
 cp $S/verif/replays/*.json /verif/work/evalmut/ 2>/dev/null
